@@ -12,7 +12,7 @@ import itertools
 import numpy as np
 
 META = dict(
-    engines=["product"],
+    engines=["product", "bfs"],
     technique="exhaustive enumeration of grids x apertures x every aberration symbol x tilts x position sets; invariant checked on every ensemble member",
     text="The product of 4-6 grids, 1-3 energies, 3 cutoffs, soft/hard edge, 29 aberration settings (none, each of the 25 symbols, 3 mixtures), 3 tilt "
          "settings and 5 position sets (quick: a covering sub-product for positions x lazy) is built with the real Probe / PlaneWave and the "
@@ -56,6 +56,10 @@ def check(ctx):
         cases.append({"who": "probe", "g": g, "e": e, "cut": cut, "soft": soft, "ab": ab, "tilt": tilt, "pos": pos, "lazy": lazy})
     for g, e, norm, tilt, lazy in itertools.product(grids, energies, (True, False), ("none", "scalar", "dist", "nx2"), (False, True)):
         cases.append({"who": "pw", "g": g, "e": e, "norm": norm, "tilt": tilt, "lazy": lazy})
+    # histories of edits on ONE Probe object (BFS, depth 2 quick / 3 thorough, dict model in lock-step): after every edit sequence the
+    # probe it builds must be normalised and equal to the probe of a FRESH object constructed from the model's parameters
+    for first in range(len(HEVENTS)):
+        cases.append({"who": "history", "first": first, "depth": 2 if ctx.quick else 3})
     ctx.run(cases, "run_case", rule="one case per builder configuration; every ensemble member checked; non-trivial = aberrations, tilt or several positions present")
 
 
@@ -71,7 +75,104 @@ def tilt_of(name):
     return np.array([[0.0, 0.0], [5.0, -3.0], [-7.0, 2.0]])
 
 
+HEVENTS = [("semiangle_cutoff", 10.0), ("semiangle_cutoff", 25.0), ("aperture.semiangle_cutoff", 15.0), ("energy", 60e3), ("energy", 200e3), ("gpts", (20, 18)),
+           ("gpts", (16, 16)), ("sampling", 0.4), ("extent", (6.0, 7.0)), ("aberrations.C10", 80.0), ("aberrations.C30", -2e4), ("C12", 40.0),
+           ("match-potential", None), ("build-scan", None)]
+
+
+def run_history(c):
+    import abtem
+    from mc.bfs import bfs
+
+    base = dict(semiangle_cutoff=20.0, energy=100e3, gpts=(16, 16), extent=(8.0, 8.0), C10=30.0, C30=0.0, C12=0.0)
+    worst = [0.0]
+
+    def make(model):
+        kw = {k: v for k, v in model.items() if k not in ("sampling_set",)}
+        return abtem.Probe(**kw)
+
+    def fresh():
+        return {"p": make(base), "m": dict(base), "hist": []}
+
+    def apply(s, ev):
+        name, val = ev
+        p, m = s["p"], s["m"]
+        if name == "aperture.semiangle_cutoff":
+            p.aperture.semiangle_cutoff = val
+            m["semiangle_cutoff"] = val
+        elif name.startswith("aberrations."):
+            setattr(p.aberrations, name.split(".")[1], val)
+            m[name.split(".")[1]] = val
+        elif name == "C12":
+            p.aberrations.set_aberrations({"astigmatism": val})
+            m["C12"] = val
+        elif name == "gpts":
+            p.gpts = val
+            m["gpts"] = tuple(val)  # extent stays, sampling follows
+        elif name == "sampling":
+            p.sampling = val
+            m["gpts"] = tuple(p.gpts)  # the Grid model itself is C17's business: take the resulting grid from the object
+            m["extent"] = tuple(p.extent)
+        elif name == "extent":
+            p.extent = val
+            m["extent"] = tuple(p.extent)
+            m["gpts"] = tuple(p.gpts)
+        elif name == "match-potential":
+            pot = abtem.PotentialArray(np.zeros((1, 24, 20), np.float32), slice_thickness=1.0, extent=(9.0, 7.5))
+            p.grid.match(pot)
+            m["gpts"], m["extent"] = (24, 20), (9.0, 7.5)
+        elif name == "build-scan":
+            p.build(abtem.GridScan(start=(0, 0), end=(2, 2), gpts=(2, 2)), lazy=False)
+        else:
+            setattr(p, name, val)
+            m[name] = val
+        s["hist"].append(ev)
+        return name
+
+    def enabled(s):
+        return HEVENTS if s["hist"] else [HEVENTS[c["first"]]]
+
+    def canon(s):  # never merged: what the probe remembers from earlier edits is the object of study
+        return tuple(s["hist"])
+
+    def check(s, hist, ev, info, pre):
+        out = []
+        pos = abtem.CustomScan([[0.0, 0.0], [1.3, 2.1]])
+        try:
+            got = np.asarray(s["p"].build(pos, lazy=False).array)
+        except Exception as e:  # noqa: BLE001
+            try:
+                make(s["m"]).build(pos, lazy=False)
+            except Exception:  # noqa: BLE001  (the parameter set itself is unbuildable: outcome classes agree)
+                return []
+            return [("history/build-raises/%s" % type(e).__name__, "build after %r raised %s: %s (a fresh Probe%r builds)" % (list(hist) + [ev], type(e).__name__, str(e)[:100], s["m"]))]
+        inten = (np.abs(np.fft.fft2(got)) ** 2).sum(axis=(-2, -1))
+        e = float(np.abs(inten - 1).max())
+        worst[0] = max(worst[0], e / 1e-4)
+        if not e <= 1e-4:
+            out.append(("history/not-normalised", "probe built after %r has sum|FFT psi|^2 = %r" % (list(hist) + [ev], np.round(inten, 5).tolist())))
+        ref = np.asarray(make(s["m"]).build(pos, lazy=False).array)
+        if got.shape != ref.shape:
+            out.append(("history/shape", "probe built after %r has shape %r, a fresh Probe%r gives %r" % (list(hist) + [ev], got.shape, s["m"], ref.shape)))
+        else:
+            d = float(np.abs(got - ref).max()) / float(np.abs(ref).max())
+            worst[0] = max(worst[0], d / 1e-5)
+            if not d <= 1e-5:
+                out.append(("history/differs-from-fresh", "probe built after %r differs from a fresh Probe%r by %.3g (relative)" % (list(hist) + [ev], s["m"], d)))
+        return out
+
+    res = bfs(fresh, apply, enabled, canon, check, c["depth"])
+    viol, seen = [], set()
+    for key, msg, hist in res["violations"]:
+        if key not in seen:
+            seen.add(key)
+            viol.append({"key": key, "msg": "%s (%s)" % (msg, c)})
+    return {"viol": viol, "obs": "%d histories" % len(res["states"]), "st": len(res["states"]), "tr": res["transitions"], "ref": res["transitions"], "err": worst[0], "nt": True}
+
+
 def run_case(c):
+    if c.get("who") == "history":
+        return run_history(c)
     import abtem
 
     gpts, extent = GRIDS[c["g"]]
